@@ -93,7 +93,7 @@ def run(tier):
                 "2^32-k with the wrap inside the stream",
         "apalache": apa,
         "model_checked": {"DataTrackerImpl": {"distinct": mc[1].distinct, "generated": mc[1].generated,
-                                              "cfg": "M=16, all 16 ISNs, L=%d" % (5 if quick else 7)},
+                                              "cfg": ("M=16, all 16 ISNs, L=5" if quick else "M=32, all 32 ISNs, L=7")},
                           "DataTrackerImpl[legacy TCPStream]": {"distinct": mc[2].distinct, "generated": mc[2].generated},
                           "model_mutants_refuted": refuted},
         "replay": p.stats,
